@@ -6,7 +6,7 @@ from sa.loader import AnalysisError, norm, walk_local
 from sa.shapes import consumption, has_unknown, flat, Shaper
 from sa.cfg import cfg_of
 from sa.spec import avro_wire as spec
-from .common import analysis, tokens, names_in, cmp_texts, value_sources
+from .common import analysis, tokens, names_in, cmp_texts, value_sources, true_facts
 from .c05 import generators, gen_shape, block_loop, block_writer_shape, block_reader_shape, compress_exprs, raw_var_sources, _enclosing
 
 PROP = "C04"
@@ -47,6 +47,12 @@ def short_circuit_guarded(a, f, call, pred_attr):
                 for c in ast.walk(v):
                     if isinstance(c, ast.Call) and isinstance(c.func, ast.Attribute) and c.func.attr == pred_attr and norm(c.func.value) == recv:
                         return True
+        if isinstance(q, ast.BoolOp) and isinstance(q.op, ast.Or):
+            # `not x.pred() or <call>`: the later operand is evaluated only when x.pred() answered true
+            idx = next(i for i, v in enumerate(q.values) if any(x is child for x in ast.walk(v)))
+            for v in q.values[:idx]:
+                if isinstance(v, ast.UnaryOp) and isinstance(v.op, ast.Not) and isinstance(v.operand, ast.Call) and isinstance(v.operand.func, ast.Attribute) and v.operand.func.attr == pred_attr and norm(v.operand.func.value) == recv:
+                    return True
         child, q = q, pm.get(id(q))
     return False
 
@@ -104,7 +110,7 @@ def run(ctx):
             elif meth == "seekable" and f.name == "_is_appendable":
                 ctx.holds("C04.R1", inst + " [append probe]", f.where(n))
             elif meth in ("tell", "readable") and f.name == "_is_appendable":
-                ok = short_circuit_guarded(a, f, n, "seekable") or any(".seekable()" in g and lab == "true" for g, lab in guards)
+                ok = short_circuit_guarded(a, f, n, "seekable") or any(".seekable()" in g and lab == "true" for g, lab in guards) or any(g == f"{recv}.seekable()" for g in true_facts(cfg, node))
                 ctx.check("C04.R1", inst + " only after seekable() answered true", ok, f.where(n), f"{f.qualname}: {norm(n)} without seekable()", "tell()/readable() is called on an output that may be a pipe or socket: a new file must need only write and flush on a non-seekable output")
             elif meth == "seek" and f.cls is W and f.name == "__init__":
                 ok = any("_is_appendable(" in g and lab == "true" for g, lab in guards)
